@@ -161,6 +161,7 @@ def compiler_id() -> str:
 def compile_one(args):
     cmd, obj, log = args
     t0 = time.time()
+    Path(obj).unlink(missing_ok=True)  # the old object may be hard-linked into the object cache
     r = subprocess.run(cmd, capture_output=True, text=True)
     Path(log).write_text(r.stdout + r.stderr)
     return obj, r.returncode, time.time() - t0
@@ -185,7 +186,8 @@ def build_tree(variant: str, verbose: bool = True) -> dict:
     b = bdir(variant)
     (b / "obj").mkdir(parents=True, exist_ok=True)
     gen_version_header(variant)
-    todo, objs = [], []
+    todo, objs, restored = [], [], []
+    (b / "ocache").mkdir(parents=True, exist_ok=True)
     stale = {p.name for p in (b / "obj").glob("*.o")}
     for rel in source_list():
         name, src, obj, dfile, keyf, flags = tu_plan(variant, rel)
@@ -193,6 +195,20 @@ def build_tree(variant: str, verbose: bool = True) -> dict:
         stale.discard(obj.name)
         key = tu_key(flags, src, dfile) if obj.exists() else None
         if key is not None and keyf.exists() and keyf.read_text() == key:
+            c = b / "ocache" / f"{name}.{key}.o"
+            if not c.exists():
+                try:
+                    os.link(obj, c)
+                except OSError:
+                    shutil.copyfile(obj, c)
+            continue
+        cached = b / "ocache" / f"{name}.{key}.o" if key else None
+        if cached is not None and cached.exists():
+            # same flags + same contents of every dependency as an earlier compile: reuse that object
+            obj.unlink(missing_ok=True)  # never write through a hard link into the cache
+            shutil.copyfile(cached, obj)
+            keyf.write_text(key)
+            restored.append(name)
             continue
         cmd = [CXX, *flags, "-MMD", "-MF", str(dfile), "-c", str(src), "-o", str(obj)]
         todo.append((name, src, obj, dfile, keyf, flags, cmd))
@@ -225,6 +241,11 @@ def build_tree(variant: str, verbose: bool = True) -> dict:
                     _hash_cache.clear()
                     k = tu_key(it[5], it[1], it[3])
                     it[4].write_text(k or "")
+                    if k:
+                        old = sorted((b / "ocache").glob(f"{it[0]}.*.o"), key=lambda p: p.stat().st_mtime)
+                        for o in old[:-3]:
+                            o.unlink()
+                        shutil.copyfile(it[2], b / "ocache" / f"{it[0]}.{k}.o")
     if failed:
         for n, log in failed:
             print(f"build: FAILED {n}; log {log}", file=sys.stderr)
@@ -232,7 +253,7 @@ def build_tree(variant: str, verbose: bool = True) -> dict:
         raise SystemExit(2)
     lib = b / "libhgraph_tree.so"
     relinked = False
-    if todo or not lib.exists() or stale:
+    if todo or restored or not lib.exists() or stale:
         cmd = [CXX, "-shared", *VARIANTS[variant], "-o", str(lib) + ".tmp", *map(str, objs), "-Wl,--no-undefined", *link_flags()]
         r = subprocess.run(cmd, capture_output=True, text=True)
         if r.returncode != 0:
@@ -240,7 +261,7 @@ def build_tree(variant: str, verbose: bool = True) -> dict:
             raise SystemExit(2)
         os.replace(str(lib) + ".tmp", lib)
         relinked = True
-    return {"recompiled": [t[0] for t in todo], "relinked": relinked, "wall_s": round(time.time() - t0, 1)}
+    return {"recompiled": [t[0] for t in todo], "restored_from_cache": restored, "relinked": relinked, "wall_s": round(time.time() - t0, 1)}
 
 
 def build_harness(variant: str, verbose: bool = True) -> dict:
